@@ -146,6 +146,21 @@ CLAIMED["C18"] = dict(
     note="Trusted: Lean kernel + standard axioms; bash, pipes, process scheduling and the Process reader are not modelled; real runs "
          "are wall-clock samples, not schedule-controlled. Parameters without NUL/newline.")
 
+CLAIMED["C19"] = dict(
+    text="PARTIAL (proxy protocol proved, worker and JSON codec sampled). Lean 4 theorems over every reachable state of a model of "
+         "Python._execute/_watch_stdout (repaired) with any number of calling threads, every interleaving with the reader and the "
+         "worker, every result value (null and falsy values are ordinary values), remote errors and log lines: a call that has "
+         "returned holds exactly the worker's answer to ITS OWN request (value for out, exception for err); one request in flight; "
+         "the reader classifies every line; L1: in a state where nobody can move every caller has returned (no lost wake-up, no "
+         "wedged lock). The pinned tree blocked on falsy results, wedged on set(), crossed answers of concurrent callers, could not "
+         "pass true/false/null arguments, kept the old value on set(name, None) and lost an answer when a log line landed inside "
+         "it: six fix: commits in /repo, replays in corpus. What mo_json does to empty strings, null members and integers beyond "
+         "2**53 is an open known finding.",
+    design="§5 C19, §7", technique="Lean 4 inductive invariant (phases of the single request slot) + L1 quiescence theorem + trace acceptance of the real proxy with a scripted worker + sampled real worker round trips",
+    note="Trusted: Lean kernel + standard axioms; model PyProxy.lean tied to python.py by trace acceptance; the worker's "
+         "one-atomic-line-per-request behaviour is an assumption of the model, sampled through the real child process (wall clock); "
+         "JSON codecs are not modelled.")
+
 PENDING = {}
 
 
